@@ -2294,19 +2294,86 @@ SELFTEST_EDITS = [
 ]
 
 
+HARMLESS_EDITS = [
+    # (file, old text, new text — every occurrence): edits that change nothing the code does (comments, names of
+    # locals and comprehension variables, annotations); the translator must derive the very same scripts
+    ("statemachine/signature.py", "        arguments = {}\n", "        # collected so far\n        arguments: dict = {}\n"),
+    ("statemachine/signature.py", "arg_vals", "positional_values"),
+    ("statemachine/signature.py", "kwargs_param", "varkw_param"),
+    ("statemachine/graph.py", "already_visited", "seen"),
+    ("statemachine/graph.py", "    visit = deque()", "    # breadth first\n    visit = deque()"),
+    ("statemachine/factory.py", "        trap_states = [s for s in cls.states if not s.final and not s.transitions]",
+     "        trap_states = [st for st in cls.states if not st.final and not st.transitions]  # no way out"),
+    ("statemachine/factory.py", "        has_states = bool(cls.states)", "        has_states = bool(cls.states)  # any state at all?"),
+    ("statemachine/statemachine.py", "        listeners = state.pop(\"_listeners\")",
+     "        # what the original remembered\n        listeners = state.pop(\"_listeners\")"),
+    ("statemachine/callbacks.py", "        seen_key = (key, spec.expected_value)", "        seen_key = (key, spec.expected_value)  # cond and unless differ"),
+    ("statemachine/contrib/diagram.py", "        actions = self._state_actions(state)\n\n        node = pydot.Node(",
+     "        actions = self._state_actions(state)\n        # the node itself\n        node = pydot.Node("),
+    ("statemachine/transition_list.py", "tmp_ordered_unique_events_as_keys_on_dict", "ordered"),
+    ("statemachine/dispatcher.py", "            func = getattr(listener.obj, name)\n", "            func = getattr(listener.obj, name)  # may be anything\n"),
+    ("statemachine/engines/sync.py", "        executed = False\n", "        executed = False  # nothing ran yet\n"),
+    ("statemachine/engines/async_.py", "first_result", "first"),
+    ("statemachine/event_data.py", "        kwargs = self.trigger_data.kwargs.copy()\n", "        kwargs = self.trigger_data.kwargs.copy()  # the user's own\n"),
+]
+
+
+def harmless(repo):
+    """every edit of HARMLESS_EDITS applied (alone) to a scratch copy: the derived scripts must stay the same.
+    -> (applied, unchanged, [edits that changed something])"""
+    import shutil
+    import tempfile
+    base = translate(repo)
+    files = sorted({rel for _n, rel, *_ in FUNCS} | {rel for rel, _o, _n in HARMLESS_EDITS} | {rel for rel, _o, _n in SELFTEST_EDITS})
+    applied, same, changed = 0, 0, []
+    tmp = tempfile.mkdtemp(prefix="srcgen_harmless_")
+    try:
+        for rel in _all_sources(repo):
+            os.makedirs(os.path.dirname(os.path.join(tmp, rel)), exist_ok=True)
+            shutil.copy(os.path.join(repo, rel), os.path.join(tmp, rel))
+        for rel, old, new in HARMLESS_EDITS:
+            src = open(os.path.join(repo, rel)).read()
+            if old not in src:
+                continue
+            applied += 1
+            with open(os.path.join(tmp, rel), "w") as f:
+                f.write(src.replace(old, new))
+            got = translate(tmp)
+            if all(got[k][1] == base[k][1] and got[k][2] == base[k][2] for k in base):
+                same += 1
+            else:
+                changed.append((rel, old.strip()[:60]))
+            shutil.copy(os.path.join(repo, rel), os.path.join(tmp, rel))
+    finally:
+        shutil.rmtree(tmp, ignore_errors=True)
+    return applied, same, changed
+
+
+def _all_sources(repo):
+    out = []
+    for root, _d, fs in os.walk(os.path.join(repo, "statemachine")):
+        for f in fs:
+            if f.endswith(".py"):
+                out.append(os.path.relpath(os.path.join(root, f), repo))
+    return out
+
+
 def selftest(repo):
     """every edit of SELFTEST_EDITS applied (alone) to a scratch copy of the files the translator reads: it has to
     notice each of them. -> (applied, detected, [edits it did not notice])"""
     import shutil
     import tempfile
     base = translate(repo)
-    files = sorted({rel for _n, rel, *_ in FUNCS})
     applied, detected, blind = 0, 0, []
     tmp = tempfile.mkdtemp(prefix="srcgen_selftest_")
     try:
-        for rel in files:
+        # (all sources: several translators read more than the file they are listed under)
+        for rel in _all_sources(repo):
             os.makedirs(os.path.dirname(os.path.join(tmp, rel)), exist_ok=True)
             shutil.copy(os.path.join(repo, rel), os.path.join(tmp, rel))
+        same = translate(tmp)
+        if any(same[k][1] != base[k][1] or same[k][2] != base[k][2] for k in base):
+            raise RuntimeError("translator self-test: the unedited scratch copy translates differently")
         for rel, old, new in SELFTEST_EDITS:
             src = open(os.path.join(repo, rel)).read()
             if src.count(old) != 1:
@@ -2351,7 +2418,11 @@ def main(argv):
         print(f"translator self-test: {d}/{a} edits noticed")
         for b in blind:
             print("  not noticed:", b)
-        return 0 if a == d else 1
+        ha, hs, hc = harmless(repo)
+        print(f"harmless edits: {hs}/{ha} leave the scripts unchanged")
+        for b in hc:
+            print("  changed the scripts:", b)
+        return 0 if a == d and ha == hs else 1
     if "--write-expected" in argv:
         if bad:
             print("untranslatable:", bad, file=sys.stderr)
